@@ -181,6 +181,8 @@ pub fn non_numbers(thorough: bool) -> Vec<OwnedTerm> {
     }
     // lists of bytes that are not UTF-8 text (Latin-1 "cafè" / "café"), next to their neighbours
     for l in [vec![200i64], vec![201], vec![99, 97, 102, 232], vec![99, 97, 102, 233], vec![255, 254], vec![255, 255], vec![128], vec![127]] { out.push(OwnedTerm::List(l.into_iter().map(int).collect())); }
+    // export funs whose module sorts after / before every closure's module (the two kinds of fun are ordered by kind first)
+    for (m, f) in [("zlib", "gzip"), ("a", "b"), ("mod", "f"), ("mod", "a"), ("", "")] { out.push(OwnedTerm::ExternalFun(ExternalFun::new(Atom::new(m), Atom::new(f), 1))); }
     out.push(OwnedTerm::ExternalFun(ExternalFun::new(Atom::new("m"), Atom::new("f"), 1)));
     out.push(OwnedTerm::ExternalFun(ExternalFun::new(Atom::new("m"), Atom::new("f"), 2)));
     out.push(OwnedTerm::ExternalFun(ExternalFun::new(Atom::new("m"), Atom::new("g"), 1)));
